@@ -85,6 +85,12 @@ def _rt_load(ctx, c, folder):
     f.getAllData()[:] = 0.0
     f.loadFromFile(folder, c["time"])
     out["load_time"] = sim.piece(f)
+    # the loaded field must be the grid's real storage: it has to survive a layout change and the way back
+    away = [l for l in sim.STD_LAYOUTS if l != c["save_layout"]][(c["seed"] // 3) % 2]
+    f.setLayout(away)
+    out["load_then_layout"] = sim.piece(f)
+    f.setLayout(c["save_layout"])
+    out["load_and_back"] = sim.piece(f)
     f.getAllData()[:] = 0.0
     f.loadFromFile(folder)
     out["load_latest"] = sim.piece(f)
@@ -133,7 +139,7 @@ def rt_pred(c):
         # setupFromFile chooses its own process grid: the load world must admit one
         res, w = run_world(Pl, _rt_load, (c, folder), schedule=c["schedule"], eager=c["eager"], key="C18:load")
     shape = tuple(c["cfg"]["npts"])
-    for name in ("load_time", "load_latest", "setup"):
+    for name in ("load_time", "load_then_layout", "load_and_back", "load_latest", "setup"):
         G = sim.assemble([r[name] for r in res], shape, name)
         if not ga.bits_equal(G, F):
             n = int((G.view(np.uint64) != F.view(np.uint64)).sum())
@@ -158,7 +164,7 @@ def rt_pred(c):
     return {"nontrivial": Ps != Pl, "labels": ["Psave=%d" % Ps, "Pload=%d" % Pl, c["save_layout"],
                                               "same-layout" if c["save_layout"] == c["want_layout"] else "other-layout",
                                               "cross-layout-load-" + cross],
-            "evals": 4}
+            "evals": 6}
 
 
 # ----------------------------------------------------------------------------------------------
